@@ -521,3 +521,16 @@ def h_nonzero2(func, a):
         m=torch.tensor(conc,dtype=torch.bool).reshape(a.shape)
         return m.nonzero()
 HANDLERS[aten.nonzero.default]=h_nonzero2
+
+def h_copy_(func, dst, src, non_blocking=False):
+    src=lift(src) if isinstance(src,torch.Tensor) and not isinstance(src,SymTensor) else src
+    if src.dtype!=dst.dtype: src=h_to_copy(None, src, dtype=dst.dtype)
+    with _disable_current_modes():
+        dst.ids.copy_(src.ids.expand(dst.ids.shape) if src.ids.shape!=dst.ids.shape else src.ids)
+    return dst
+HANDLERS[aten.copy_.default]=h_copy_
+def h_fill_(func, dst, val):
+    with _disable_current_modes():
+        dst.ids.fill_(const_id_val(to_val(val,dst.dtype)))
+    return dst
+HANDLERS[aten.fill_.Scalar]=h_fill_
